@@ -85,12 +85,14 @@ def _do_cmd(command, timeout, **kwargs):
                     (mask_pwd(command), proc.returncode, output)
                 )
             return output
-        except subprocess.TimeoutExpired as err:
+        except subprocess.TimeoutExpired:
             os.killpg(os.getpgid(proc.pid), signal.SIGKILL)
             proc.communicate()
             LOG.debug("[%s] {timed out}", kwargs.get('cwd', os.getcwd()))
+            # Do not chain the TimeoutExpired exception: it holds the
+            # unmasked command line, which tracebacks would display.
             raise CommandError(
-                "Command %s timed out." % mask_pwd(command)) from err
+                "Command %s timed out." % mask_pwd(command)) from None
         except CommandError:
             raise
         except Exception as err:
